@@ -378,6 +378,45 @@ def deep_copy(repo: Repo) -> RuleRun:
         rets = [n for n in walk_shallow(m.node) if isinstance(n, ast.Return)]
         ok = len(rets) == 1 and isinstance(rets[0].value, ast.Call) and attr_chain(rets[0].value.func) in ("copy.deepcopy", "deepcopy") and ast.unparse(rets[0].value.args[0]) == m.params[0]
         r.check(ok, m, "copy.deepcopy(self)", f"{m.qualname} is not a deep copy of self: the copy shares points/edges with the original and transforming one moves the other", m.node, key="copy")
+    # deepcopy treats functions as atoms: a lambda / nested function that closes over `self` and is kept in the instance
+    # still reads the ORIGINAL object's attributes in the copy (bound methods, in contrast, are re-bound to the copy)
+    from ..alias import _stores_param
+
+    for cls in [elem, *sorted(repo.subclasses(elem), key=lambda c: c.qualname)]:
+        for m in sorted(cls.methods.values(), key=lambda f: f.name):
+            if not m.params or m.is_staticmethod:
+                continue
+            selfname = m.params[0]
+            closures = [n for n in ast.walk(m.node) if isinstance(n, (ast.Lambda, ast.FunctionDef)) and n is not m.node and any(isinstance(x, ast.Name) and x.id == selfname for x in ast.walk(n))]
+            if not closures:
+                continue
+            env = TypeEnv(repo, m)
+            for k, cl in enumerate(closures):
+                kept = None
+                par = parent(cl)
+                if isinstance(par, ast.Assign) and any(isinstance(t, ast.Attribute) and attr_chain(t.value) == selfname for t in par.targets):
+                    kept = f"assigned to {ast.unparse(par.targets[0])}"
+                elif isinstance(par, ast.Call) and cl in par.args:
+                    callees, _ = env.resolve_call(par)
+                    idx = par.args.index(cl)
+                    for c in callees:
+                        off = 1 if c.cls is not None and not c.is_staticmethod else 0
+                        if _stores_param(c, idx + off):
+                            kept = f"handed to {c.qualname}, which stores it"
+                elif isinstance(cl, ast.FunctionDef):
+                    for n in ast.walk(m.node):
+                        if isinstance(n, ast.Assign) and isinstance(n.value, ast.Name) and n.value.id == cl.name and any(isinstance(t, ast.Attribute) and attr_chain(t.value) == selfname for t in n.targets):
+                            kept = f"assigned to {ast.unparse(n.targets[0])}"
+                if kept is None:
+                    r.ok(m, "closure over self is not kept in the instance", key=f"closure#{k}")
+                    continue
+                r.bad(
+                    m,
+                    f"{m.qualname} keeps a function that closes over '{selfname}' in the instance ({kept}): copy.deepcopy copies functions by reference, so in a copy() of this "
+                    f"{cls.name} the function still reads the ORIGINAL object - the copy's geometry does not follow the copy's transformations and moves when the original is transformed",
+                    cl,
+                    key=f"closure#{k}",
+                )
     return r
 
 
@@ -599,4 +638,65 @@ def transform_routing(repo: Repo) -> RuleRun:
 
 transform_routing.rule_id = "C09.TRANSFORM-ROUTING"
 
-RULES = [purity, no_alias_store, affine_balance, unit_normal, direction_parts, transform_equals_methods, transform_routing, linear_parts, deep_copy]
+def mirror_matrix(repo: Repo) -> RuleRun:
+    """functions.mirror_matrix(n) is the Householder reflection I - 2 n n^T: each of the nine entries, normalised to a
+    polynomial in the components of n, equals delta_ij - 2 n_i n_j. A wrong entry is invisible for axis-aligned and
+    diagonal normals - all that tests use - and bends every mirrored entity for a general one."""
+    from ..poly import Poly, eval_poly
+
+    r = RuleRun(PROP, "C09.MIRROR-MATRIX", floor=9, what="mirror_matrix(n)[i][j] == delta_ij - 2*n_i*n_j as polynomials, all nine entries")
+    r.exhaustive = True
+    fn = repo.func("util.functions.mirror_matrix")
+    r.require(len(fn.params) == 1, "mirror_matrix no longer takes exactly the normal")
+    comps = [Poly.var(f"n{i}") for i in range(3)]
+    env = {fn.params[0]: comps}
+    ret = None
+    for st in fn.node.body:
+        if isinstance(st, ast.Expr) and isinstance(st.value, ast.Constant):
+            continue
+        if isinstance(st, ast.Assign) and len(st.targets) == 1 and isinstance(st.targets[0], ast.Name):
+            try:
+                env[st.targets[0].id] = eval_poly(st.value, env)
+            except AnalysisError:
+                if isinstance(st.value, ast.Call) and (attr_chain(st.value.func) or "").split(".")[-1] in ("asarray", "array") and st.value.args and isinstance(st.value.args[0], ast.Name) and st.value.args[0].id in env:
+                    env[st.targets[0].id] = env[st.value.args[0].id]
+                else:
+                    raise
+        elif isinstance(st, ast.Assign) and len(st.targets) == 1 and isinstance(st.targets[0], ast.Tuple) and isinstance(st.value, ast.Name) and isinstance(env.get(st.value.id), list):
+            for t, v in zip(st.targets[0].elts, env[st.value.id]):
+                if isinstance(t, ast.Name):
+                    env[t.id] = v
+        elif isinstance(st, ast.Return):
+            ret = st.value
+        else:
+            r.require(False, f"mirror_matrix: statement '{ast.unparse(st)[:60]}' is outside the recognised shape (component bindings + one matrix literal)")
+    r.require(ret is not None, "mirror_matrix does not return a matrix literal")
+    lit = ret.args[0] if isinstance(ret, ast.Call) and (attr_chain(ret.func) or "").split(".")[-1] in ("array", "asarray") and ret.args else ret
+    r.require(isinstance(lit, (ast.List, ast.Tuple)) and len(lit.elts) == 3 and all(isinstance(row, (ast.List, ast.Tuple)) and len(row.elts) == 3 for row in lit.elts), "mirror_matrix does not return a 3x3 literal")
+    for i, row in enumerate(lit.elts):
+        for j, e in enumerate(row.elts):
+            got = eval_poly(e, env)
+            want = (Poly.const(1) if i == j else Poly.const(0)) - Poly.const(2) * comps[i] * comps[j]
+            r.check(
+                got == want,
+                fn,
+                f"[{i}][{j}] = {want}",
+                f"mirror_matrix(n)[{i}][{j}] is {got} (from '{ast.unparse(e)}') but the reflection I - 2 n n^T has {want} there: mirroring about a plane whose normal has "
+                "three different non-zero components is no longer a reflection (points, arrays, links and every mirrored entity are affected)",
+                e,
+                key=f"entry[{i}][{j}]",
+            )
+    return r
+
+
+mirror_matrix.rule_id = "C09.MIRROR-MATRIX"
+
+def no_shared_parts(repo: Repo) -> RuleRun:
+    from ..alias import shared_parts_rule
+
+    return shared_parts_rule(repo, PROP, "C09.NO-SHARED-PARTS")
+
+
+no_shared_parts.rule_id = "C09.NO-SHARED-PARTS"
+
+RULES = [purity, no_alias_store, affine_balance, unit_normal, direction_parts, transform_equals_methods, transform_routing, linear_parts, deep_copy, mirror_matrix, no_shared_parts]
